@@ -107,6 +107,7 @@ func (c *Ctx) Oracle(check, input, impl, oracle string, ok bool, class string) {
 		c.Rep.Known[class]++
 		return
 	}
+	c.Rep.Hist["FAILED:"+check]++
 	if len(c.Rep.Fails) < c.maxFails {
 		c.Rep.Fails = append(c.Rep.Fails, OracleFail{check, input, impl, oracle, class})
 	}
